@@ -1107,7 +1107,11 @@ class Variable(CanBehaveLikeAVariable[T]):
         values = {self._id_: hv}
         for d in kwargs.values():
             values.update(d.bindings)
-        return OperationResult(values, not bool(instance), self)
+        is_false = not bool(instance)
+        if self._predicate_type_:
+            # a predicate used as a condition: selectors (Alternative) read the truth of a branch from its node
+            self._is_false_ = is_false
+        return OperationResult(values, is_false, self)
 
     @property
     def _name_(self):
